@@ -9,7 +9,13 @@ for id in $IDS; do
   rm -rf $W; git -C /repo worktree prune; git -C /repo worktree add --detach $W HEAD >/dev/null 2>&1
   if ! git -C $W apply /verif/seeded/$id/patch.diff 2>/dev/null; then echo "$id: patch does not apply to HEAD"; git -C /repo worktree remove --force $W; continue; fi
   PAULIE_REPO=$W ./check $P --tier quick > /tmp/rs_$id.log 2>&1; rc=$?
-  if [ $rc -eq 1 ] && grep -q "VIOLATION property=$P" /tmp/rs_$id.log; then echo "$id: caught by $P ($(grep -m1 VIOLATION /tmp/rs_$id.log | cut -c1-160))"; else echo "$id: MISSED by $P (rc=$rc)"; fi
+  if [ $rc -eq 1 ] && grep -q "VIOLATION property=$P" /tmp/rs_$id.log; then echo "$id: caught by $P ($(grep -m1 VIOLATION /tmp/rs_$id.log | cut -c1-160))"; C=true; else echo "$id: MISSED by $P (rc=$rc)"; C=false; fi
+  python3 - "seeded/$id/meta.json" "$C" "$rc" "$(grep -m1 VIOLATION /tmp/rs_$id.log | cut -c1-300)" <<'PY'
+import json,sys
+p,c,rc,line=sys.argv[1:5]
+m=json.load(open(p)); m["regression_at_head"]={"caught_by_quick_check_of_its_property":c=="true","exit_code":int(rc),"first_violation_line":line}
+json.dump(m,open(p,"w"),indent=1)
+PY
   git -C /repo worktree remove --force $W
 done
 # restore evidence of the unchanged tree for the properties touched
